@@ -147,6 +147,34 @@ def main():
             continue
         seen.add(gen)
         ck.violation(key, "run %s (fault/kill %s) exit %s" % (r["case"], r["faultdesc"] or "none", r["exit"]), {"case": r["case"], "fault": r["faultdesc"]})
+    # ---- "exactly the given message behind its own Received line": the content of that line (who invoked it, which process, when -
+    # spec/Origin.tla over the calendar of spec/Datetime.tla) and of the envelope file, under a virtual clock that includes the last
+    # days of February, leap days, year ends; the same records as ./check X05
+    sys.path.insert(0, os.path.dirname(os.path.abspath(__file__)))
+    import x05
+    U = sandbox.USERS
+    uids = [U["alias"], U["qmaild"], U["qmails"], 0, 1000, 2 ** 31 - 1]
+    clocks = [951782400 - 1, 951782400, 951782400 + 43200, 951868799, 951868800, 1835395200 + 3600, 1835395200 + 86399, 1835481600, 1961625600 + 5, 68169599, 68169600, 68256000,
+              978307199, 978307200, 4107542399 % (2 ** 31), 0, 86399, 2 ** 31 - 2]
+    orecs = []
+    for i, clock in enumerate(clocks + [ck.rng.randrange(0, 2 ** 31 - 1) for _ in range(60 if thorough else 14)]):
+        orecs.append(x05.one_run(tree, ids, work, i, uids[i % len(uids)], clock, [b"Subject: t\n\nbody\n", b"", b"Received: (qmail 1 invoked by alias); 1 Jan 1970 00:00:00 -0000\n\nx\n"][i % 3],
+                                 [b"s@origin.test", b""][i % 2], [b"r%d@dest.test" % k for k in range(i % 3)]))
+    of = ck.scratch.path("origin.ndjson")
+    write_ndjson(of, orecs)
+    obad, ores = tlc_validate_records("OriginRec", "OriginRec.cfg", of, len(orecs), chunk=10, heap="4g", timeout=900)
+    ck.add_tlc("OriginRec", ores)
+    ck.cov["received_line_and_envelope_head_runs"] = len(orecs)
+    ck.cov["traces_validated_against_impl"] += len(orecs)
+    oseen = set()
+    for idx, why in obad:
+        why = why.strip('"')
+        if why in oseen:
+            continue
+        oseen.add(why)
+        r = orecs[idx - 1]
+        ck.violation("origin:%s:uid=%d:clock=%d" % (why, r["uid"], r["day"] * 86400 + r["tod"]), "invoked by uid %d as process %d at %d: stored %r..., envelope file %r..."
+                     % (r["uid"], r["pid"], r["day"] * 86400 + r["tod"], bytes(r["mess"])[:90], bytes(r["envf"])[:50]), r)
     ck.finish()
 
 
